@@ -1,4 +1,5 @@
 import SpVerif.Lemmas.LineBox
+import SpVerif.Lemmas.PolyBox
 /-!
 # C01 — the box-intersection test is geometrically exact for every geometry type
 
@@ -6,11 +7,13 @@ Theorems about the kernel models of `Geom` (`intersection.py`), over exact integ
 point with the closed box") is stated with rational points, so it covers every point of every segment.
 
 Proved here for every element and every box: points, multipoints (degenerate boxes included), lines, rings and multilines
-(boxes of positive width and height), missing / empty elements, independence of the corner order.
-For polygons and multipolygons the kernel is the same vertex / segment test over all rings (covered by `C01_polygon_boundary`)
-followed by a winding-number test of the four box corners; that the corner test decides "the box lies inside the region" needs
-the constancy of the winding number on a box that meets no ring, which is **not yet proved** (C02, DESIGN §3) — the polygon
-clause is therefore `_partial` and is compared against an independent exact oracle on every run.
+(boxes of positive width and height), missing / empty elements, independence of the corner order, and **polygons and
+multipolygons** (`C01_polygon_exact`, `C01_multipolygon_exact`): the closed point set of a polygon is read as the points of its
+rings together with the points of non-zero winding number of all its rings (`PolyPoint`).  The last step of the kernel - testing
+the winding number at the four box corners only - is justified by `Lemmas/WindQ.lean`: the winding number of a closed ring is
+constant on every box that contains no point of the ring (`windQ_const_box`, the formalised Appendix B of DESIGN.md) and zero
+outside the ring's bounding box (`windQ_far`).  That "non-zero winding number" is "inside the shell and in none of the holes" for
+a valid polygon is C02's decision logic plus the Jordan curve theorem for simple rings, which is not proved.
 -/
 namespace SpVerif
 open Geom
@@ -80,7 +83,44 @@ theorem C01_corner_order (x0 y0 x1 y1 : Int) :
       | (split <;> split <;> omega)
       | (split <;> omega)
 
-/-- polygons, boundary part (partial): whenever a vertex of some ring lies in the box, or a ring segment meets a box edge,
+/-- **polygons**: for every box of positive width and height (corners in any order) and every polygon with closed rings whose
+holes lie within the bounding box of the shell, the test is True exactly when the closed point set of the polygon - ring points
+and points of non-zero winding number - shares a point with the closed box -/
+theorem C01_polygon_exact (bx : Box) (hx : bx.x0 ≠ bx.x1) (hy : bx.y0 ≠ bx.y1) (shell : List Pt) (holes : List (List Pt))
+    (hcl : ∀ r ∈ shell :: holes, Closed r) (hsh : bboxOf (shell :: holes).flatten = bboxOf shell) :
+    polygonIB bx (shell :: holes) = true ↔ ∃ q : QPt, InBoxQ (orientBox bx) q ∧ PolyPoint (shell :: holes) q := by
+  obtain ⟨px, py⟩ := orientBox_pos hx hy
+  exact polygonIBcore_iff (orientBox bx) px py shell holes hcl hsh
+
+/-- the polygons a multipolygon may consist of: a shell with holes, all rings closed, holes within the shell's bounding box -/
+def PolyOK (rings : List (List Pt)) : Prop :=
+  ∃ shell holes, rings = shell :: holes ∧ (∀ r ∈ shell :: holes, Closed r) ∧ bboxOf (shell :: holes).flatten = bboxOf shell
+
+/-- **multipolygons**: True exactly when some part shares a point with the closed box -/
+theorem C01_multipolygon_exact (bx : Box) (hx : bx.x0 ≠ bx.x1) (hy : bx.y0 ≠ bx.y1) (parts : List (List (List Pt)))
+    (hok : ∀ part ∈ parts, PolyOK part) :
+    multipolygonIB bx parts = true ↔ ∃ part ∈ parts, ∃ q : QPt, InBoxQ (orientBox bx) q ∧ PolyPoint part q := by
+  obtain ⟨px, py⟩ := orientBox_pos hx hy
+  simp only [multipolygonIB, List.any_eq_true]
+  constructor
+  · rintro ⟨part, hp, h⟩
+    obtain ⟨shell, holes, rfl, hcl, hsh⟩ := hok part hp
+    exact ⟨_, hp, (polygonIBcore_iff _ px py shell holes hcl hsh).mp h⟩
+  · rintro ⟨part, hp, h⟩
+    obtain ⟨shell, holes, rfl, hcl, hsh⟩ := hok part hp
+    exact ⟨_, hp, (polygonIBcore_iff _ px py shell holes hcl hsh).mpr h⟩
+
+/-! non-vacuity: a square with a square hole meets the hypotheses; a box inside the hole does not intersect, a box inside the
+ring of material does -/
+example : PolyOK [[(0,0),(9,0),(9,9),(0,9),(0,0)], [(3,3),(3,6),(6,6),(6,3),(3,3)]] := by
+  refine ⟨_, _, rfl, ?_, by decide⟩
+  intro r hr
+  simp only [List.mem_cons, List.mem_nil_iff, or_false] at hr
+  rcases hr with rfl | rfl <;> exact ⟨by decide, by decide⟩
+example : polygonIB ⟨4, 4, 5, 5⟩ [[(0,0),(9,0),(9,9),(0,9),(0,0)], [(3,3),(3,6),(6,6),(6,3),(3,3)]] = false ∧
+          polygonIB ⟨1, 1, 2, 2⟩ [[(0,0),(9,0),(9,9),(0,9),(0,0)], [(3,3),(3,6),(6,6),(6,3),(3,3)]] = true := by decide
+
+/-- polygons, boundary part (a lemma kept from before the full theorem): whenever a vertex of some ring lies in the box, or a ring segment meets a box edge,
 the polygon kernel answers True -/
 theorem C01_polygon_boundary_partial (b : Box) (rings : List (List Pt)) (bb : Box) (hbb : bboxOf rings.flatten = some bb)
     (hout : bboxOutside bb b = false)
